@@ -1,4 +1,7 @@
-Require Import Model.Base Corr.Common Corr.Draw.
+Require Import Model.Base Corr.Common Corr.Draw Corr.L2 Corr.DrawL.
 Definition oracle (v : verdict) : bool := v_framing v && v_no_anomaly v && v_nondraw_clean v.
-Definition check (x : pcase * pout) : Z := code (corr_exact (fst x) (snd x)) (oracle (verdict_of x)).
-Definition model_out := Corr.Draw.model_out.
+(* at pin level, possibly after a faulted call: the traffic of every later call must still decode to well-framed
+   groups that the controller accepts without anomaly *)
+Definition oracle2 (v : verdict) : bool := v_framing v && v_nondraw_clean v && v_results_ok v && v_picture v.
+Definition check := check_with oracle oracle2.
+Definition model_out := Corr.DrawL.model_out.
